@@ -38,8 +38,11 @@ func c12Check(c *hist.Case, r *evid.Rec) []evid.Disc {
 			stream := fmt.Sprintf("%s/q%d", ti.Topic, o.P.QoS)
 			if !firstSeen[tag] {
 				firstSeen[tag] = true
-				if s.A.Kind != "publish" || s.Tag != tag {
+				if (s.A.Kind != "publish" || s.Tag != tag) && s.A.Kind != "burst" {
 					heldTogether = true // released later than its own publish step: held back by flow control or offline
+				}
+				if s.A.Kind == "burst" {
+					r.Label("burst-delivery")
 				}
 				if prev := lastFirst[stream]; tag < prev {
 					sig := "C12-first-transmission-out-of-order"
@@ -92,7 +95,7 @@ func c12Gen(rt *rapid.T) *hist.Case {
 		hist.Action{Kind: "subscribe", Client: 0, Filters: []refmqtt.Filter{{Filter: "t/#", QoS: 2}}},
 		hist.Action{Kind: "connect", Client: 1, Version: 4, Clean: true, AutoAck: true})
 	action := rapid.Custom(func(rt *rapid.T) hist.Action {
-		switch rapid.IntRange(0, 11).Draw(rt, "kind") {
+		switch rapid.IntRange(0, 13).Draw(rt, "kind") {
 		case 0, 1, 2, 3, 4:
 			return hist.Action{Kind: "publish", Client: 1, Topic: "t/a", QoS: qa}
 		case 5, 6:
@@ -103,17 +106,24 @@ func c12Gen(rt *rapid.T) *hist.Case {
 			return hist.Action{Kind: "ack", Client: 0, Index: rapid.IntRange(0, 3).Draw(rt, "idx")}
 		case 10:
 			return hist.Action{Kind: pick(rt, "how", []string{"drop", "close"}), Client: 0}
-		default:
+		case 11:
 			return con
+		default:
+			// a burst of small and large messages on one stream: the subscriber's write queue backs up, so the broker's
+			// output buffering (small packets batched, large ones written through) is exercised
+			n := rapid.IntRange(3, 10).Draw(rt, "burstn")
+			pads := rapid.SliceOfN(rapid.SampledFrom([]int{0, 0, 5, 40, 300, 3000}), 2, 5).Draw(rt, "pads")
+			return hist.Action{Kind: "burst", Burst: []hist.BurstItem{{Client: 1, Topic: "t/a", QoS: qa, Count: n, Pads: pads}}}
 		}
 	})
+	c.Cfg.WriteBuf = pick(rt, "writebuf", []int{0, 0, 16, 64, 256})
 	c.Actions = append(c.Actions, rapid.SliceOfN(action, 5, 40).Draw(rt, "actions")...)
 	c.Actions = append(c.Actions, hist.Action{Kind: "drop", Client: 0}, con, hist.Action{Kind: "drain", Client: 0})
 	return c
 }
 
 func TestC12(t *testing.T) {
-	r := evid.New("C12", "rapid: one publisher sends 3-40 tagged messages to two topics at a fixed QoS per topic; the subscriber (persistent session, Receive Maximum 1, 2 or absent, v3.1.1/v5) acknowledges with generated timing, is dropped and reconnects with session present in the middle, and finally reconnects and acknowledges everything; all publishes of a case fall within the same second or two, which is the situation in which ordering by creation second says nothing; oracle: per (topic, delivered QoS) the first transmissions arrive in publish order, and the batch resent after a CONNACK with session present is in publish order; non-trivial = >=2 messages of one stream were held back or resent together; distinct by history")
+	r := evid.New("C12", "rapid: one publisher sends 3-40 tagged messages to two topics at a fixed QoS per topic; the subscriber (persistent session, Receive Maximum 1, 2 or absent, v3.1.1/v5) acknowledges with generated timing, receives bursts of mixed small and large (up to 3000 byte) messages with client write buffers of 16..2048 bytes, is dropped and reconnects with session present in the middle, and finally reconnects and acknowledges everything; all publishes of a case fall within the same second or two, which is the situation in which ordering by creation second says nothing; oracle: per (topic, delivered QoS) the first transmissions arrive in publish order, and the batch resent after a CONNACK with session present is in publish order; non-trivial = >=2 messages of one stream were held back or resent together; distinct by history")
 	defer r.Finish(t)
 	if evid.ReplayMode() {
 		evid.Replay(t, r, replayPath(), c12Check)
